@@ -53,7 +53,7 @@ def main():
             out["checks"][p] = {"exit": r.returncode, "verdict": {0: "MISSED", 1: "caught", 2: "HARNESS-ERROR"}.get(r.returncode, "?"),
                                 "wall_s": round(time.time() - t0, 1), "first": line[:400]}
             if r.returncode == 2:
-                out["checks"][p]["output"] = r.stdout[-800:]
+                out["checks"][p]["output"] = r.stdout[-800:] + "\n--stderr--\n" + r.stderr[-2500:]
         print(json.dumps(out, indent=1))
         dest = os.path.join(VERIF, "seeded", mid)
         if out["tests_same_as_baseline"] and out["demo_with_patch_exit"] != 0 and out["demo_without_patch_exit"] == 0:
